@@ -668,6 +668,18 @@ func main() {
 	for _, k := range known {
 		fmt.Printf("KNOWN-FINDING: %s\n", k)
 	}
+	if len(badV) > 0 {
+		cc := map[string]int{}
+		for _, v := range badV {
+			cc[v.Class]++
+		}
+		var cl []string
+		for c, n := range cc {
+			cl = append(cl, fmt.Sprintf("%s=%d", c, n))
+		}
+		sort.Strings(cl)
+		fmt.Printf("violation classes (first per run): %s\n", strings.Join(cl, " "))
+	}
 	ev.write()
 	fmt.Printf("runs=%d nontrivial_distinct=%d violations=%d known=%d infra=%d det=%d/%d diverged wall=%.1fs\n",
 		len(outcomes), len(nt), len(bad), len(known), infraN, detDiverged, detRuns, time.Since(t0).Seconds())
